@@ -37,6 +37,12 @@ class Ctx:
         self.binding = binding
         self.name = spec.get("name", "?")
         self.scenario = scenario if scenario is not None else build_scenario(spec, binding)
+        # every scenario explored in a worker carries the SAME name: a scenario's name is a label, not an
+        # identity, so anything keyed by it (caches) must not change behaviour
+        try:
+            self.scenario.name = "verif"
+        except Exception:
+            pass
         self.env = NASimEnv(self.scenario, fully_obs=False, flat_actions=True, flat_obs=True)
         self.env_fo = NASimEnv(self.scenario, fully_obs=True, flat_actions=True, flat_obs=True) if need_fo else None
         self.layout = Layout(spec)
@@ -119,7 +125,7 @@ def param_vector(spec, mact):
     return v
 
 
-def explore(ctx, oracles, max_states=None, record_graph=False, action_rep="object"):
+def explore(ctx, oracles, max_states=None, record_graph=False, action_rep="object", root_state=None):
     """BFS over the implementation's reachable states. Returns dict with counts (and the graph).
     action_rep="param": every action is handed to a parameterised-action environment as its parameter
     vector (actions without a vector are skipped), so the decode path of that space is inside the loop."""
@@ -143,19 +149,19 @@ def explore(ctx, oracles, max_states=None, record_graph=False, action_rep="objec
     else:
         reps = list(ctx.actions)
     try:
-        return _explore(ctx, oracles, max_states, record_graph, reps)
+        return _explore(ctx, oracles, max_states, record_graph, reps, root_state)
     finally:
         if action_rep == "param":
             ctx.env = ctx.env_object
 
 
-def _explore(ctx, oracles, max_states, record_graph, reps):
+def _explore(ctx, oracles, max_states, record_graph, reps, root_state=None):
     env, seam, model, layout = ctx.env, ctx.seam, ctx.model, ctx.layout
     if not ctx.rows_ok:
         raise HarnessError(f"{ctx.name}: initial tensor rows do not carry the scenario's addresses "
                            "(layout property C09 is broken; dynamic sweep cannot decode states)")
     env.reset()
-    s0 = env.current_state
+    s0 = env.current_state if root_state is None else root_state
     key0 = s0.tensor.tobytes()
     ctx.parent[key0] = None
     seen = {key0: 0}
